@@ -32,6 +32,7 @@ Dec07(e) == /\ e.ev = "dec"
             /\ ("bytes" \in DOMAIN cs => DecRef(e))
 
 Ok(e) == IF Focus = "C05" THEN (IF cs.kind = "enc" THEN EncOk(e) ELSE (cs.valid => Dec05(e)))
+         ELSE IF cs.kind = "hexstr" THEN e.ev = "hexstr" /\ e.out = "ok" /\ e.res \in {"ok", "err"}     \* total on any string
          ELSE (cs.kind = "dec" => Dec07(e))
 Apply(e) == UNCHANGED cs
 Reset(e) == cs' = e
